@@ -231,23 +231,24 @@ def tryInferVersion (frags : List Frag) : Except Err (Option Ver) :=
     | none => .error .invalidInput
     | some v => if rest.all (fun f => f.version == some v) then .ok (some v) else .error .invalidInput
 
-/-- rust/lance/src/io/commit.rs: `check_storage_version(&mut manifest)` -/
+/-- rust/lance/src/io/commit.rs: `check_storage_version(&mut manifest)`.  The label is resolved
+(`stable` ↦ 2.0, `next` ↦ 2.1) before it is compared with the file versions. -/
 def checkStorageVersion (m : Manifest) : Except Err Manifest :=
   match Ver.fromStr m.storageVersion with
   | none => .error .invalidInput
-  | some dsv =>
-    if dsv = Ver.legacy then
+  | some label =>
+    if label.resolve = Ver.legacy then
       match tryInferVersion m.fragments with
       | .error _ => .error .internal
       | .ok none => .ok m
       | .ok (some actual) =>
-        if actual.rank > dsv.rank then .ok { m with storageVersion := dataStorageFormatNew actual }
+        if actual.rank > label.resolve.rank then .ok { m with storageVersion := dataStorageFormatNew actual }
         else .ok m
     else
       match tryInferVersion m.fragments with
       | .error e => .error e
       | .ok none => .ok m
-      | .ok (some actual) => if actual ≠ dsv then .error .internal else .ok m
+      | .ok (some actual) => if actual ≠ label.resolve then .error .internal else .ok m
 
 /-! ## The commit gate and histories
 
